@@ -10,7 +10,6 @@ let handle (f : string list) : string =
   | ["gospec"; h] -> opt_bytes (gospec_case (bytes_of_hex h))
   | ["spawn"; h] -> opt_bytes (spawn_case (bytes_of_hex h))
   | ["cancel"; h] -> opt_bytes (cancel_case (bytes_of_hex h))
-  | ["gospecf"; h] -> opt_bytes (gospec_flags_case (bytes_of_hex h))
   | _ -> "driver-error:unknown-command"
 
 let () = main_loop handle
